@@ -34,6 +34,7 @@ def make_plan(spec: Dict[str, Any], seed: int, batch: Dict[str, Any], run: int, 
     rng = run_seed(seed, spec["stream"], batch["name"], run)
     plan = spec["profile"].gen_plan(rng, tier, **batch.get("args", {}))
     plan["check"] = spec["id"]
+    plan["hash_seeds"] = list(driver.HASH_SEEDS)
     plan["seed"] = seed
     plan["batch"] = batch["name"]
     plan["run"] = run
